@@ -342,7 +342,13 @@ class C13(Prop):
                 limit0 = s._incoming_concurrency.max_concurrent
                 largest = limit0
                 costed = False
+                closed = False
                 for step in case['steps']:
+                    if ft.closing or ft.lost:
+                        # the session disconnected the peer (timeouts are errors, errors cost: C14); what arrives
+                        # afterwards is not received, what was queued is cancelled
+                        closed = True
+                        break
                     if step[0] == 'arrive':
                         for _ in range(step[1]):
                             if sent < n:
@@ -376,6 +382,9 @@ class C13(Prop):
                     if len(running) > largest:
                         viol.append(f'{len(running)} handlers run at once, the largest limit in force was {largest}')
                     unanswered = s.unanswered_request_count()
+                    if ft.closing or ft.lost:
+                        closed = True
+                        continue
                     if unanswered != sent - len(ended_set):
                         viol.append(f'unanswered_request_count() = {unanswered}, received {sent}, finished {len(ended_set)}')
                 # drain: everything is eventually served, in arrival order
@@ -383,17 +392,20 @@ class C13(Prop):
                     for k in sorted(running):
                         if not gates[k].done():
                             gates[k].set_result(None)
-                    if costed:
-                        await asyncio.sleep(3)
+                    await asyncio.sleep(3)       # cost-proportional sleeps (errors cost too) run on virtual time
                     await sessions.settle(8)
                     snap()
                     if len(ended_set) == sent:
                         break
-                if len(ended_set) != sent or (len(done) != sent and ptimeout > 10 ** 5):
+                closed = closed or ft.closing or ft.lost
+                nreq = sum(1 for e in events if e[0] == 'arrive')
+                if closed:
+                    pass
+                elif len(ended_set) != sent or (len(done) != sent and ptimeout > 10 ** 5):
                     viol.append(f'only {len(done)} of {sent} requests were ever served ({len(ended_set)} ended)')
-                if order != sorted(order) and not costed:
+                if order != sorted(order) and not any(e[0] in ('slept', 'abort') for e in events):
                     viol.append('requests were not admitted in arrival order')
-                if None in asked or sorted(asked) != list(range(sent)):
+                if None in asked or sorted(asked) != list(range(nreq)):
                     viol.append('a handler ran without asking the session\'s limiter for a permit')
                 elif admitted != sorted(admitted) or asked != sorted(asked):
                     viol.append(f'requests beyond the limit do not wait in arrival order: permits asked in order {asked[:12]}..., '
@@ -401,7 +413,7 @@ class C13(Prop):
                 elif unheld:
                     viol.append(f'the handlers of requests {unheld[:8]} started while their requests held no permit')
                 return {'viol': viol[:3], 'peak': peak[0], 'limit0': limit0, 'sent': sent, 'costed': costed,
-                        'events': events}
+                        'events': events, 'closed': bool(closed)}
             return loop.run_until_complete(main())
         finally:
             for f in restore:
